@@ -13,7 +13,7 @@ for rep in reports:
     print('==', rep.proc.key, rep.status, rep.detail[-1500:] if rep.status != 'ok' else '', 'paths', rep.paths, 'smoke', (rep.smoke.z3 if rep.smoke else None))
     for o, r in rep.obligations:
         if not r.discharged or '-v' in sys.argv:
-            print('    z3=%s cvc5=%s %.2fs %s' % (r.z3, r.cvc5, r.time, o.label))
+            print('    z3=%s cvc5=%s %.2fs %s %s' % (r.z3, r.cvc5, r.time, o.label, ' '.join(o.trace or [])))
     print('   %d obligations, %d discharged' % (len(rep.obligations), sum(1 for o, r in rep.obligations if r.discharged)))
 for o, r in lemmas:
     if not r.discharged:
